@@ -10,4 +10,21 @@ __attribute__((noinline)) const char* w_session_line(int i) { return script_line
 __attribute__((noinline)) int w_session_seq() { return env ? env->curr_op_seq : -1; }
 __attribute__((noinline)) int w_session_step() { return instance.step() ? 1 : 0; }
 __attribute__((noinline)) int w_session_done() { return env->done ? 1 : 0; }
+// everything the listing/marker check needs: what the next step will execute (from the session state) and the listing as built by main()
+__attribute__((noinline)) unsigned w_session_dump(unsigned char* out) {
+    unsigned char* p = out;
+    auto u32 = [&](uint32_t v) { memcpy(p, &v, 4); p += 4; };
+    auto bytes = [&](const unsigned char* d, size_t n) { if (n) memcpy(p + 4, d, n); u32((uint32_t)n); p += n; };
+    u32((uint32_t)count); u32((uint32_t)env->curr_op_seq); u32(env->done ? 1 : 0);
+    u32(env->tce ? 1 : 0); u32(env->tce ? (uint32_t)env->tce->m_i : 0); u32(env->tce ? (uint32_t)env->tce->m_path_len : 0);
+    if (env->tce) bytes(env->tce->m_control.data(), env->tce->m_control.size()); else bytes(nullptr, 0);
+    bytes(env->script.data(), env->script.size());
+    u32((uint32_t)(env->pc - env->script.begin()));
+    bytes(env->successor_script.data(), env->successor_script.size());
+    u32(env->is_p2sh ? 1 : 0);
+    if (env->is_p2sh && !env->p2shstack.empty()) bytes(env->p2shstack.back().data(), env->p2shstack.back().size()); else bytes(nullptr, 0);
+    u32((uint32_t)env->sigversion);
+    for (int i = 0; i < count; i++) bytes((const unsigned char*)script_lines[i], strlen(script_lines[i]));
+    return (unsigned)(p - out);
+}
 }
